@@ -73,6 +73,36 @@ def fixed_cases():
     return out
 
 
+def dtype_cases():
+    """mixed dtypes: the update value is subtracted/added with its mathematical value (unsigned update tensors must not wrap around in their own dtype)"""
+    out = []
+    idx = np.array([0, 2, 2, 3])
+    for op, sign in (("add_at", 1), ("subtract_at", -1), ("set_at", 0)):
+        for tdt in ("float64", "int64", "int32", "float32"):
+            for udt in ("uint8", "uint16", "uint32", "int16", "int64", "float32"):
+                x = np.arange(5).astype(tdt) * 10
+                u = np.array([1, 2, 3, 4]).astype(udt)
+                exp = x.astype(object)
+                if sign:
+                    for i, v in zip(idx.tolist(), u.tolist()):
+                        exp[i] = exp[i] + sign * v
+                for be in ("numpy", "numpy.numpylike"):
+                    o = harness.call_einx(op, "[n], i, i -> [n]", [x.copy(), idx.copy(), u.copy()], {}, be)
+                    bad = None
+                    if o[0] != "ok":
+                        bad = f"{o}"
+                    else:
+                        got = np.asarray(o[1])
+                        if sign == 0:
+                            ok = got[0] == 1 and got[1] == 10 and got[4] == 40 and got[3] == 4 and got[2] in (2, 3)
+                        else:
+                            ok = all(float(a) == float(b) for a, b in zip(got.tolist(), exp.tolist()))
+                        if not ok:
+                            bad = f"target {tdt}, updates {udt}: got {got.tolist()} expected {exp.tolist() if sign else 'x with elements 0,2,3 overwritten'}"
+                    out.append((("mismatch" if bad else "ok"), {"op": op, "description": "[n], i, i -> [n]", "shapes": [[5], [4], [4]], "kwargs": {"target_dtype": tdt, "update_dtype": udt}}, be, bad))
+    return out
+
+
 def run(tier, seed):
     chk = Check("C14", tier, seed, "other")
     try:
@@ -85,7 +115,7 @@ def run(tier, seed):
     ok, sites, failing = frame.rule_update_registrations()
     chk.add_rule("C14.S.bcast_registered", ok, sites, failing)
     res = _corpus_run.run_corpus(seed + 14, tier, fams=["upd", "upd", "upd", "get_at"], chunks=(30 if tier == "quick" else 1500))
-    res += fixed_cases()
+    res += fixed_cases() + dtype_cases()
     add_corpus(chk, res, "set_at/add_at/subtract_at (and get_at) vs an explicit loop over all index combinations", "update templates: <=4 target axes, 1-2 bracketed, vectorised axes missing/extra, duplicate coordinates, 2 backends; plus hand-written seeds (repeated bracket names, permuted update axes of equal length, broadcast updates)")
     chk.assumptions += ["set_at with duplicate coordinates: any competing value accepted", "only numpy backends"]
     chk.explanation = "top-level postcondition = explicit loop over all combinations of un-bracketed axes of coordinates and updates, frame 'every element not addressed keeps its value'; bounded corpus"
